@@ -241,6 +241,33 @@ def check(seed, workers):
         list(ex.map(one, ms))
 
 
+def paths(seed, workers):
+    """Oracle robustness: run the mapped checks (small budget) on EVERY mutant, also those the suite kills, and list the
+    runs that end as harness errors (exit 2) - a violation path of an oracle that crashes shows up here."""
+    d, ms = load(seed)
+
+    def one(m):
+        if "paths" in m:
+            return m
+        tmp = scratch(m, False)
+        res = {}
+        try:
+            for c in m["checks"][:4]:
+                env = dict(os.environ, VERIF_REPO=tmp, PYTHONDONTWRITEBYTECODE="1", VERIF_EVIDENCE_DIR=os.path.join(tmp, "ev"), VERIF_NO_REPLAY_VERIFY="1")
+                p = subprocess.run([os.path.join(ROOT, "check"), c, "--runs", "1500", "--wall", "30", "--workers", "4", "--no-shrink"], env=env, stdout=subprocess.PIPE, stderr=subprocess.STDOUT, text=True, timeout=600)
+                res[c] = {"exit": p.returncode, "harness": [l[:300] for l in p.stdout.splitlines() if l.startswith("HARNESS-ERROR")][:2]}
+        finally:
+            shutil.rmtree(tmp, ignore_errors=True)
+        m["paths"] = res
+        json.dump(m, open(os.path.join(d, m["id"] + ".json"), "w"), indent=1)
+        bad = {c: r for c, r in res.items() if r["exit"] == 2}
+        print(m["id"], m["file"], {c: r["exit"] for c, r in res.items()}, ("HARNESS " + json.dumps(bad)[:400]) if bad else "", flush=True)
+        return m
+
+    with ThreadPoolExecutor(max_workers=workers) as ex:
+        list(ex.map(one, ms))
+
+
 def report(seed):
     d, ms = load(seed)
     surv = [m for m in ms if m.get("survives_suite")]
@@ -260,5 +287,7 @@ if __name__ == "__main__":
         suite(int(sys.argv[2]), int(sys.argv[3]) if len(sys.argv) > 3 else 8)
     elif cmd == "check":
         check(int(sys.argv[2]), int(sys.argv[3]) if len(sys.argv) > 3 else 4)
+    elif cmd == "paths":
+        paths(int(sys.argv[2]), int(sys.argv[3]) if len(sys.argv) > 3 else 3)
     elif cmd == "report":
         report(int(sys.argv[2]))
